@@ -40,9 +40,9 @@ def gen(ctx):
                       probe=[260000]))
     # overlapping frames with a write into the overlap between two next() calls; a context left through
     # an exception while a generator is suspended
-    cases.append(dict(n=N, acts=[['start'] + PARAMS[1], ['advance', 0], ['write', 260000, -7], ['write', 160000, -8],
-                                 ['advance', 0], ['write', 390000, -3], ['advance', 0], ['advance', 0], ['advance', 0],
-                                 ['advance', 0], ['advance', 0]], probe=[260000, 160000, 390000]))
+    cases.append(dict(n=N, acts=[['start'] + PARAMS[1], ['advance', 0], ['write', 275000, -7], ['write', 150000, -8],
+                                 ['advance', 0], ['write', 375000, -3], ['advance', 0], ['advance', 0], ['advance', 0],
+                                 ['advance', 0], ['advance', 0]], probe=[275000, 150000, 375000]))
     cases.append(dict(n=N, acts=[['start'] + PARAMS[0], ['advance', 0], ['enter'], ['readerr'], ['exitexc'], ['advance', 0],
                                  ['enter'], ['enter'], ['exitexc'], ['advance', 0], ['exit'], ['advance', 0], ['advance', 0]],
                       probe=[]))
@@ -156,6 +156,31 @@ def run(ctx):
         for i, v in ob['written']:
             if lastw.get(i, i) != v:
                 ctx.fail('write-lost', key, expected=[i, lastw.get(i, i)], observed=[i, v])
+        # coherence, stated directly: every chunk shows every earlier write (frames by the reference
+        # iterindices of C14, for the length the array has at the generator's first next())
+        from p14 import ref_iterindices
+        wr, curlen, gens = {}, case['n'], []
+        for a, o in zip(case['acts'], ob['outs']):
+            if a[0] == 'start':
+                gens.append(dict(params=a[1:], frames=None))
+            elif a[0] == 'grow':
+                curlen = a[2]
+            elif a[0] == 'write':
+                wr[a[1]] = a[2]
+            elif a[0] == 'close':
+                gens[a[1]]['frames'] = []
+            elif a[0] == 'advance':
+                gdesc = gens[a[1]]
+                if gdesc['frames'] is None:
+                    c, s, st, en, fl = gdesc['params']
+                    rr = ref_iterindices(curlen, c, s, st, en, fl)
+                    gdesc['frames'] = list(rr[1]) if rr[0] == 'ok' else []
+                if o[0] == 1 and gdesc['frames']:
+                    x, y = gdesc['frames'].pop(0)
+                    want = [1, y - x] + [wr.get(i, i) for i in (x, x + (y - x) // 2, y - 1)]
+                    if o != want:
+                        ctx.fail('chunk-not-current', key, expected=want, observed=o)
+                        break
         obsl = "[" + "; ".join(czl(o) for o in ob['outs']) + "]"
         final = czl([fin['users'], 1 if fin['cached'] else 0, fin['maps'] and 1 or (1 if fin['cached'] else 0)])
         terms.append(f"chk_sched {cz(case['n'])} [" + "; ".join(act_term(a) for a in case['acts']) + f"] {obsl} {final}")
